@@ -16,6 +16,8 @@ type Sess struct {
 	Srv  *Server
 	W    *CW
 	Conn *SrvConn
+	WS   *WSServer
+	WSC  *WSConn
 	Cli  *End
 	Base int64 // server->client stream offset when the session was up and settled
 }
@@ -161,4 +163,53 @@ func StartComponent(e *Engine, secret string, script NegScript, prep func(w *Com
 	}
 	e.Sleep(50 * time.Millisecond)
 	return w, srv, srv.Conns[0], true
+}
+
+// StartClientWS is StartClientNoSettle over the WebSocket transport. The
+// caller must defer s.WS.Stop().
+func StartClientWS(e *Engine, o ClientOpts, sm bool, prep func(w *CW)) (*Sess, bool) {
+	o.WebSocket = true
+	o.Insecure = true
+	ws := NewWSServer(e)
+	ws.SM = sm
+	w := NewCW(e, o, sharedCerts())
+	s := &Sess{e: e, W: w, WS: ws}
+	if prep != nil {
+		prep(w)
+	}
+	if err := w.Create(); err != nil {
+		return s, false
+	}
+	err, _ := e.Call("Connect", w.Client.Connect)
+	if err != nil || len(ws.Conns) == 0 || !ws.Conns[0].Established || ws.Conns[0].Pipe == nil {
+		return s, false
+	}
+	s.WSC = ws.Conns[0]
+	s.Cli = s.WSC.Pipe.Cli
+	s.Base = s.WSC.Pipe.Srv.TotalWritten
+	return s, true
+}
+
+// SrvSend sends one top-level element to the client over whichever transport the session uses.
+func (s *Sess) SrvSend(raw string) {
+	if s.WSC != nil {
+		s.WSC.Send(withClientNS(raw))
+		return
+	}
+	s.Conn.Send(raw)
+}
+
+// SrvEnd is the server side of the session's connection.
+func (s *Sess) SrvEnd() *End {
+	if s.WSC != nil {
+		return s.WSC.Pipe.Srv
+	}
+	return s.Conn.End
+}
+
+func (s *Sess) SrvDead() bool {
+	if s.WSC != nil {
+		return s.WSC.Dead
+	}
+	return s.Conn.Dead
 }
